@@ -262,6 +262,38 @@ def check_mirror(chk, rule, fname, sign):
     """R02.6 / R19.2: keep c>=r, mirror c>r with (r,c,v)->(c,r,sign*v)"""
     m = module(SPARSE)
     fn = m.function(fname)
+    # 1. meaning-based decision: abstract interpretation over the elementwise segment domain (coosem.py);
+    #    the verdict is about the (row, col, value) contributions per ordering of row and col, so any spelling of the
+    #    filter / concatenate / scatter steps (np.where + offset, boolean masks, slice views, a shared helper) is accepted
+    from . import coosem
+    try:
+        with open(repo_path(SPARSE)) as fh:
+            tree = ast.parse(fh.read())
+        got, shape_ok = coosem.contributions(tree, fname)
+    except coosem.Unsupported as e:
+        got = None
+        chk.note('%s: outside the elementwise segment domain (%s); deciding %s on the statement structure instead'
+                 % (fname, e, rule))
+    if got is not None:
+        want = coosem.expected(sign)
+        chk.ob(rule, shape_ok, SPARSE, fname, 'result', line=fn.lineno,
+               expected='coo_matrix((v, (r, c)), shape=m.shape)', got='shape is not m.shape' if not shape_ok else 'ok')
+        keep = ('R', 'C', ('D', 1))
+        ok_keep = got['eq'] == want['eq'] and got['gt'] == want['gt'] and got['lt'].count(keep) == 1
+        chk.ob(rule, ok_keep, SPARSE, fname, 'kept part', line=fn.lineno,
+               expected='row=col: %s, row>col: {}, row<col contains (row, col, val) once' % coosem.show(want['eq']),
+               got='row=col: %s, row>col: %s, row<col: %s' % tuple(coosem.show(got[o]) for o in ('eq', 'gt', 'lt')),
+               sample='%s keeps col>=row entries once and drops col<row (decided per ordering of row and col)' % fname)
+        rest = list(got['lt'])
+        if keep in rest:
+            rest.remove(keep)
+        wantm = ('C', 'R', ('D', sign))
+        for k, pos in (('r', 0), ('c', 1), ('v', 2)):
+            ok = len(rest) == 1 and rest[0][pos] == wantm[pos]
+            chk.ob(rule, ok, SPARSE, fname, 'mirror ' + k, line=fn.lineno,
+                   expected='row<col: %s' % coosem.show(want['lt']), got='row<col: %s' % coosem.show(got['lt']),
+                   sample='%s mirrors strictly-upper entries with sign %+d (contributions per stored entry)' % (fname, sign))
+        return
     env, stores, ret, mp = mirror_semantics(fn)
     R, Cc, V = ('attr', ('name', mp), 'row'), ('attr', ('name', mp), 'col'), ('attr', ('name', mp), 'data')
     keep = ('cmp', 'GtE', Cc, R)
